@@ -245,6 +245,7 @@ func srExec(op string, res *Result) string {
 	var outs []string
 	var got []byte
 	sawErr, sawEOF, dataAfterErr := false, false, false
+	readerClosed := false
 	for _, o := range parts[1:] {
 		f := strings.Fields(o)
 		if len(f) == 0 {
@@ -267,6 +268,11 @@ func srExec(op string, res *Result) string {
 				continue
 			}
 			cls := classifyRErr(err)
+			if readerClosed && err == nil && res.Violation == nil {
+				// C17: every Read after Close (any length, incl. 0) fails with an error
+				res.Violation = &Violation{Kind: "history", Site: "io.Reader.Read", Symptom: "read-after-close-accepted",
+					What: fmt.Sprintf("Read(%d) after Close returned (%d, nil)", n, k)}
+			}
 			if sawErr && k > 0 {
 				dataAfterErr = true
 			}
@@ -284,6 +290,7 @@ func srExec(op string, res *Result) string {
 			}
 		case "c":
 			r.Close()
+			readerClosed = true
 			outs = append(outs, "c:ok")
 		}
 	}
